@@ -87,6 +87,15 @@ func DecryptData(key, data []byte, e etype.EType) ([]byte, error) {
 // DecryptMessage decrypts the message provided using the methods specific to the etype provided as defined in RFC 8009.
 // The integrity of the message is also verified.
 func DecryptMessage(key, ciphertext []byte, usage uint32, e etype.EType) ([]byte, error) {
+	// The key must have the size of the etype's protocol key, as for encryption (the key derivation itself
+	// would take a key of any length).
+	kl := e.GetKeyByteSize()
+	if e.GetETypeID() == etypeID.AES256_CTS_HMAC_SHA384_192 {
+		kl = 32
+	}
+	if len(key) != kl {
+		return nil, fmt.Errorf("incorrect keysize: expected: %v actual: %v", kl, len(key))
+	}
 	// The message must at least hold a confounder and the integrity checksum.
 	if len(ciphertext) < e.GetConfounderByteSize()+e.GetHMACBitLength()/8 {
 		return nil, errors.New("ciphertext too short")
